@@ -50,10 +50,12 @@ BUDGET = {'quick': dict(examples=2400, max_s=300),
 CLASSIC = ('NETCDF3_CLASSIC', 'NETCDF3_64BIT_OFFSET', 'NETCDF4_CLASSIC')
 DT_CLASSIC = ['S1', 'i1', 'i2', 'i4', 'f4', 'f8']
 DT_NC4 = DT_CLASSIC + ['i8', 'u1', 'u2', 'u4', 'u8']
-DECLARED = {'i1': [-120, -101], 'u1': [250, 201], 'i2': [-9999, -32000],
-            'u2': [9999, 65000], 'i4': [-9999, -99999], 'u4': [9999, 99999],
-            'i8': [-9999, -99999], 'u8': [9999, 99999],
-            'f4': [-9999.0, -999.0, 1e20], 'f8': [-9999.0, -999.0, 1e20]}
+DECLARED = {'i1': [-120, -101, 0], 'u1': [250, 201, 0],
+            'i2': [-9999, -32000, 0], 'u2': [9999, 65000, 0],
+            'i4': [-9999, -99999, 0], 'u4': [9999, 99999, 0],
+            'i8': [-9999, -99999, 0], 'u8': [9999, 99999, 0],
+            'f4': [-9999.0, -999.0, 1e20, 0.0],
+            'f8': [-9999.0, -999.0, 1e20, 0.0]}
 
 
 def _elems(code, special):
@@ -187,6 +189,9 @@ def cases(draw, tier='quick'):
                                                   min_size=size,
                                                   max_size=size))]
             fill = draw(st.sampled_from(DECLARED[code]))
+            if fill == 0:
+                # unmasked data never equals the declared fill
+                data = [1 if x == 0 else x for x in data]
             style = draw(st.sampled_from(
                 ['fill_value', 'missing_value', '_FillValue',
                  'fill_value+missing_value', 'missing_value+_FillValue']))
@@ -222,6 +227,27 @@ def cases(draw, tier='quick'):
 
 def strategy(tier):
     return cases(tier)
+
+
+def enumerate_cases(tier):
+    """a few files holding one variable larger than 16 MiB (writers may
+    treat large variables differently, e.g. slab-wise), record counts that
+    are not multiples of any natural slab size"""
+    big = [('NETCDF4_CLASSIC', False, 5), ('NETCDF3_64BIT_OFFSET', True, 7)]
+    if tier == 'thorough':
+        big += [('NETCDF4', True, 3), ('NETCDF3_CLASSIC', False, 9)]
+    for flavour, unl, nt in big:
+        fs = dict(dims=[['t', nt, unl], ['y', 1200, False], ['x', 1000,
+                                                              False]],
+                  vars=[dict(name='big', dims=['t', 'y', 'x'], dtype='f4',
+                             gen=997, mask=None, fill=None, fillattrs={},
+                             coord=False, tc='f', attrs={}),
+                        dict(name='small', dims=['t'], dtype='i4',
+                             data=list(range(nt)), mask=None, fill=None,
+                             fillattrs={}, coord=False, tc='i', attrs={})],
+                  gattrs={})
+        yield dict(file=fs, flavour=flavour, complevel=0, route='netcdf',
+                   resave=False)
 
 
 def build(fs):
@@ -278,6 +304,8 @@ def check_case(case):
         r.label('scalar-var')
     if any(u for _, (l, u) in m.dims.items()):
         r.label('unlimited')
+    if any('gen' in sv for sv in fs['vars']):
+        r.label('variable>16MiB')
     for sv in fs['vars']:
         r.label('dtype:' + sv['dtype'])
         if sv.get('fillattrs'):
